@@ -133,7 +133,7 @@ class SessionPlan(Plan):
         return ()
 
     def cases(self, tier, seed):
-        return itertools.chain(self.extra_cases(tier, seed), reentrant_end_cases(), invalid_connect_cases(), long_run_cases(), refusal_reaction_cases(), self.walk_cases(tier, seed))
+        return itertools.chain(self.extra_cases(tier, seed), reentrant_end_cases(), invalid_connect_cases(), long_run_cases(tier), refusal_reaction_cases(), self.walk_cases(tier, seed))
 
 
 def invalid_connect_cases():
@@ -164,7 +164,7 @@ def refusal_reaction_cases():
                         yield C.SessionCase("refusal-reaction", Cfg(profile=prof, model=model, re_on_refuse=react), steps=st)
 
 
-def long_run_cases():
+def long_run_cases(tier="quick"):
     """Counts well beyond what the sweeps reach: many reconnects in a row, long queues, many requests
     of one kind, many exchanges interleaved, many keepalive periods.  Shared by all session checks."""
     up = [("build", 0), ("setwin", 0, 2), ("connect", 0, False, 0, 4), ("connack", 0, 0, False)]
@@ -194,6 +194,12 @@ def long_run_cases():
                 st = [("build", 0), ("setwin", 0, win), ("connect", 0, True, 0, lvl), ("connack", 0, 0, False)]
                 st += [("pub", 0, 1)] * (win + 1) + [("pub", 0, 0)] * n0 + [("ack", 0, "PUBACK", "old")] * (win + 1)
                 yield C.SessionCase("long-run/qos0-burst", cfg, steps=st)
+            if tier == "thorough" and model == "sync" and lvl == 4:
+                # more messages queued than there are packet identifiers (they are QoS 0 and need none), across a loss and a resumption
+                st = [("build", 0), ("setwin", 0, 1), ("connect", 0, False, 0, lvl), ("connack", 0, 0, False), ("pub", 0, 1), ("pub", 0, 1)]
+                st += [("pub", 0, 0, False, 0)] * 66000 + [("lose", 0, "lost"), ("build", 0), ("connect", 0, False, 0, lvl), ("connack", 0, 0, True),
+                                                          ("ack", 0, "PUBACK", "old"), ("ack", 0, "PUBACK", "old")]
+                yield C.SessionCase("long-run/queue-66000", cfg, steps=st)
             # 24 QoS 2 exchanges interleaved under window 16
             st = [("build", 0), ("setwin", 0, 16), ("connect", 0, True, 0, lvl), ("connack", 0, 0, False)] + [("pub", 0, 2)] * 24
             st += [("ack", 0, "PUBREC", "old")] * 24 + [("ack", 0, "PUBCOMP", "new")] * 12 + [("ack", 0, "PUBCOMP", "old")] * 12
